@@ -314,6 +314,8 @@ def cases(tier):
         nm = 'all' if nan_cells is None else len(nan_cells)
         yield Case(f'{conv}:{shape[0]}x{shape[1]}:{bounds}:nan{nm}:after-another-export', body,
                    dict(conv=conv, shape=shape, bounds=bounds, nan_cells=nan_cells, history=True), patches=_patches(), max_paths=5000, split=8)
+    for fmt, ext in (('wkt', '.json'), ('geojson', '.wkb'), ('wkb', '.wkt'), ('geojson', '.geojson')):
+        yield Case(f'cli:{fmt}:{ext}', body_cli, dict(fmt=fmt, ext=ext), max_paths=3)
     yield Case('large:cf2d-holes:3x4', body_large, dict(conv='cf2d-holes'), patches=_large_patches(), max_paths=5)
     yield Case('large:cf1d-0-360:3x6', body_large, dict(conv='cf1d-0-360'), patches=_large_patches(), max_paths=5)
     for conv in ('shoc_standard', 'cf1d'):
@@ -327,6 +329,34 @@ def cases(tier):
 def functions():
     from emsarray.operations import geometry as G
     return [G.to_geojson, G._dumpable_iterator, G.write_geojson, G.write_shapefile, G._to_multipolygon, G.write_wkt, G.write_wkb]
+
+
+def body_cli(ctx, fmt, ext):
+    """The export-geometry command is an entry point to the same exporters: the format asked for is the format
+    written, whatever the extension of the output file, and the file reads back as that format with every cell."""
+    from symx import builders
+    from emsarray.cli import main
+    from emsarray.operations import geometry as G
+    import emsarray
+    os.makedirs(os.path.join(VERIF, '.work'), exist_ok=True)
+    work = tempfile.mkdtemp(dir=os.path.join(VERIF, '.work'), prefix='c15cli-')
+    try:
+        ds = builders.cf1d(2, 3, data_vars={'temp': (('y', 'x'), numpy.arange(6.0).reshape(2, 3))})
+        src = os.path.join(work, 'in.nc')
+        ds.to_netcdf(src)
+        out = os.path.join(work, 'cells' + ext)
+        try:
+            main(['-q', 'export-geometry', src, out, '--format', fmt])
+            status = 0
+        except SystemExit as e:
+            status = e.code or 0
+        ctx.check(status == 0 and os.path.exists(out), 'export-geometry succeeds')
+        ref = os.path.join(work, 'reference')
+        {'geojson': G.write_geojson, 'wkt': G.write_wkt, 'wkb': G.write_wkb}[fmt](emsarray.open_dataset(src), ref)
+        ctx.check(os.path.exists(out) and open(out, 'rb').read() == open(ref, 'rb').read(),
+                  'the command line writes the requested format (same bytes as the library writer), whatever the file is called')
+    finally:
+        shutil.rmtree(work, ignore_errors=True)
 
 
 def run(tier, seed=0, replay=None, procs=None, only=None):
